@@ -715,6 +715,34 @@ def run_dynkey(chk, F, rid="R-DYNKEY"):
            "with the wrong binder's template, or the inner binder takes the outer one's entry away" %
            (ct[:70], short(lookups[0])[:60]), "%s:%s" % (fn["file"], lookups[0].get("l")),
            sample="dynamicFrames is keyed by the binder's symbol" if by_symbol else "name-keyed sequence searched innermost first")
+    # the entry of a binder is removed by resolving its NAME (pop_dynamic_frame_of(name)): that finds the binder only while
+    # its own scope is still the innermost one - once the frame is popped the name resolves to an enclosing binder of the
+    # same name, whose entry would be erased instead (round 8)
+    popf = F.resolve_method("UTAP::ExpressionBuilder", "pop_dynamic_frame_of")
+    by_name = popf is not None and popf.get("body") is not None and any(c.get("name") == "resolve" for c in calls(popf["body"]))
+    if by_name:
+        n = 0
+        for f in sorted(F.functions.values(), key=lambda z: z.get("line") or 0):
+            if f.get("cls") != "UTAP::ExpressionBuilder" or f.get("body") is None or f.get("name") == "pop_dynamic_frame_of":
+                continue
+            if not any(c.get("name") == "pop_dynamic_frame_of" for c in calls(f["body"])):
+                continue
+            n += 1
+            order = []
+            for st in f["body"].get("s", []):
+                for c in calls(st):
+                    if c.get("name") == "pop_dynamic_frame_of":
+                        order.append("entry")
+                    if c.get("name") == "popFrame":
+                        order.append("frame")
+            ok = "entry" in order and ("frame" not in order or order.index("entry") < order.index("frame"))
+            chk.ob(rid, "%s|entry before frame" % f["name"], ok,
+                   "%s pops the scope of the binder before it removes the binder's entry from dynamicFrames; the entry is found "
+                   "by resolving the binder's name, which after the pop names an enclosing binder of the same name - the outer "
+                   "binder loses its template while it is still in scope" % f["q"], "%s:%s" % (f["file"], f["line"]),
+                   sample="%s removes the table entry while the binder is still the innermost of its name" % f["name"])
+        if n < 1:
+            raise AnalysisBroken("R-DYNKEY: no caller of pop_dynamic_frame_of found")
 
 
 # ---------------------------------------------------------------------------------------------- R-CURCLEAR
@@ -793,3 +821,52 @@ def current_clear(chk, F, G, rid="R-CURCLEAR"):
                "the open template away, and the next proc_location dereferences a null pointer" %
                (part, inside[part], ", ".join(bad)), inside[part],
                sample="%s (parsed inside a template): %d callbacks, none assigns currentTemplate" % (part, len(names)))
+
+
+# ---------------------------------------------------------------------------------------------- R-TEMPLSET
+def template_set(chk, F, rid="R-TEMPLSET"):
+    """The callbacks between proc_begin and proc_end (proc_location, proc_branchpoint, proc_edge_begin, proc_instance_line ..)
+    dereference currentTemplate without a test: proc_begin is their licence.  Every way out of proc_begin therefore leaves
+    currentTemplate pointing at a template - also the ways out that report an error (round 8: a `return` after reporting a
+    duplicate template name left it null, and the first location of that template crashed)."""
+    from ..inline import sites_with_conditions, strip
+    chk.rule(rid, "DocumentBuilder::proc_begin leaves by no path on which currentTemplate is null: a return under a condition "
+                  "that says so is preceded, on that path, by an assignment of the address of a template")
+    fn = F.resolve_method("UTAP::DocumentBuilder", "proc_begin")
+    if fn is None or fn.get("body") is None:
+        raise AnalysisBroken("DocumentBuilder::proc_begin not found")
+    asg = []
+    for x in walk(fn["body"]):
+        if x.get("k") == "bin" and x.get("op") == "=":
+            l = strip(x["lhs"])
+            if isinstance(l, dict) and l.get("k") == "member" and l.get("name") == "currentTemplate" and \
+                    any(y.get("k") == "un" and y.get("op") == "&" for y in walk(x["rhs"])):
+                asg.append(x.get("l") or 0)
+    if not asg:
+        raise AnalysisBroken("proc_begin does not assign the address of a template to currentTemplate")
+
+    def says_null(c, t):
+        c0, neg = strip(c), False
+        while isinstance(c0, dict) and c0.get("k") == "un" and c0.get("op") == "!":
+            c0, neg = strip(c0["e"]), not neg
+        if isinstance(c0, dict) and c0.get("k") == "member" and c0.get("name") == "currentTemplate":
+            return (t != neg) is False
+        if isinstance(c0, dict) and c0.get("k") == "bin" and c0.get("op") in ("!=", "==") and "currentTemplate" in short(c0) and \
+                "nullptr" in short(c0):
+            return ((c0["op"] == "!=") == (t != neg)) is False
+        return False
+    n = 0
+    exits = list(sites_with_conditions(fn["body"], lambda x: x.get("k") == "return"))
+    for site, conds in exits:
+        null_since = [c.get("l") or 0 for c, t in conds if isinstance(c, dict) and c.get("k") != "caseof" and says_null(c, t)]
+        if not null_since:
+            continue
+        n += 1
+        since = max(null_since)
+        ok = any(since <= a <= (site.get("l") or 0) for a in asg)
+        chk.ob(rid, "proc_begin|return@null", ok,
+               "DocumentBuilder::proc_begin returns (line %s) on a path on which currentTemplate is null and no template has been "
+               "assigned: proc_location, proc_edge_begin and the other callbacks of the template body dereference it without a "
+               "test - the first location of such a template crashes" % site.get("l"), "%s:%s" % (fn["file"], site.get("l")))
+    chk.ob(rid, "proc_begin|exits", True, "", "%s:%s" % (fn["file"], fn["line"]),
+           sample="%d early exit(s) of proc_begin, none leaves currentTemplate null" % len(exits))
